@@ -329,7 +329,21 @@ func CoqCase[T any](m *Mod[T], c Case[T], obs []Obs[T]) string {
 	if m.Preface != nil {
 		pre = m.Preface() + " "
 	}
-	return fmt.Sprintf("%s %d %s%s %s", m.Ctor, c.ID, pre, emit.List(ops), emit.List(os_))
+	// probes (after the last operation): resource, tag of the rule that rejected the request
+	var prs []string
+	if len(obs) > 0 {
+		for _, p := range obs[len(obs)-1].Probes {
+			who := "None"
+			if p.Blocked {
+				who = "(Some (-99))" // rejected, but not by a rule of this module
+				if p.By != nil {
+					who = "(Some " + emit.Z(m.Tag(p.By)) + ")"
+				}
+			}
+			prs = append(prs, emit.Tuple(emit.Z(int64(p.Res)), who))
+		}
+	}
+	return fmt.Sprintf("%s %d %s%s %s %s", m.Ctor, c.ID, pre, emit.List(ops), emit.List(os_), emit.List(prs))
 }
 
 // Monitor states C13 directly on the implementation's observations, with its own ledger.
